@@ -118,19 +118,21 @@ def evaluate(ctx, p, res, base, replay, truth_ir, via):
     if truth_ir is None:
         return
     feat = feat_from_ir(truth_ir)
-    for kind in p.files:
-        if kind == p.truth:
-            continue
-        tb = dict(base, target_kind=kind, target_pre=p.pre[kind],
+    targets = [(kind, p.files[kind], p.pre[kind], False) for kind in p.files if kind != p.truth] + \
+              [(e["kind"], e["path"], e["pre"], True) for e in p.extra]
+    for kind, target_path, target_pre, is_extra in targets:
+        tb = dict(base, target_kind=kind, target_pre=target_pre, target_is_second_file_of_truth_kind=is_extra,
                   target_func_before=p.features.get(kind + "_func_before", False),
                   target_is_method=p.method and kind == "function",
                   kind=KIND2[kind])
-        ir, problem = parse_target(kind, p.files[kind], p.names[kind])
+        ir, problem = parse_target(kind, target_path, p.names[kind])
         ctx.event("targets_checked")
+        if is_extra:
+            ctx.event("second_files_of_truth_kind_checked")
         if problem:
             _d, _dexc = direct_hop(kind, truth_ir, DEF_NAME[kind], p.method and kind == "function") if truth_ir else (None, None)
             tb["direct_emission_raises"] = [_dexc] if _dexc else []
-            ctx.report(dict(tb, field="target", tag=problem, expected="definition {} in {}".format(p.names[kind], os.path.basename(p.files[kind])), observed=problem), replay)
+            ctx.report(dict(tb, field="target", tag=problem, expected="definition {} in {}".format(p.names[kind], os.path.basename(target_path)), observed=problem), replay)
             continue
         k2, opts = SYNC_OPTS[kind]
         tb.update(case_flags(feat))
@@ -153,15 +155,20 @@ def one(ctx, cfg, rich, wild, via, tmproot, with_return=False, key=0):
     root = tempfile.mkdtemp(prefix="p", dir=tmproot)
     wild0 = wild
     try:
-        p = make_project(ctx.case_rng("{}:{}".format(key, with_return)), root, cfg["truth"], cfg["pre"], method=cfg["method"], rich=rich, kinds=cfg["kinds"], wild=wild, with_return=with_return)
+        extra = key % 3 == 0 and not (cfg["method"] and cfg["truth"] == "function")
+        p = make_project(ctx.case_rng("{}:{}".format(key, with_return)), root, cfg["truth"], cfg["pre"], method=cfg["method"], rich=rich, kinds=cfg["kinds"], wild=wild, with_return=with_return,
+                         extra_same_kind=extra)
+        if extra:
+            ctx.feature("second_file_of_truth_kind")
         wild = wild or with_return  # return entries: judged by the differential oracle only
         truth_ir, problem = parse_target(p.truth, p.files[p.truth], p.names[p.truth])
         base = {"op": OP, "truth": p.truth, "method": p.method, "n_kinds": len(cfg["kinds"]), "rich": rich, "wild": wild, "via": via, "with_return": with_return,
                 "pre_states": sorted(set(cfg["pre"].values())), "truth_func_before": p.features.get(p.truth + "_func_before", False)}
         replay = {"cfg": {k: (list(v) if isinstance(v, tuple) else v) for k, v in cfg.items()}, "rich": rich, "wild": wild0, "via": via,
                   "with_return": with_return, "key": key, "seed": ctx.seed, "tier": ctx.tier,
-                  "files": {os.path.basename(f): (open(f).read() if os.path.exists(f) else None) for f in p.files.values()}}
+                  "files": {os.path.basename(f): (open(f).read() if os.path.exists(f) else None) for f in list(p.files.values()) + [e["path"] for e in p.extra]}}
         base["truth_problem"] = problem
+        base["extra_same_kind"] = bool(p.extra)
         if problem:
             ctx.event("truth_unparseable:" + problem)
         res = run_api(p) if via == "api" else run_cli(p)
